@@ -9,3 +9,12 @@ package physical
 // assumed here (trusted) for the recursive materialization of the source.
 //@ func (*Node).Materialize
 //@   ensures appendonly: result1 == nil && node.Schema.NoRetractions ==> appendOnly(result0)
+
+// C11: materializing a call of a strict function hands NewFunctionCall exactly the positions of the arguments whose
+// static type admits NULL (so the call yields NULL whenever such an argument is NULL, execution.FunctionCall.Evaluate),
+// and every position handed over is a valid argument index.
+//@ func (*Expression).Materialize
+//@   requires validargs: validT(Null) && (expr.ExpressionType == 2 ==> forall(j, 0, len(expr.FunctionCall.Arguments), validT(expr.FunctionCall.Arguments[j].Type)))
+//@   loop 4 invariant indices: 0 <= $k && $k <= len(expr.FunctionCall.Arguments) && forall(j, 0, len(nullCheckIndices), 0 <= nullCheckIndices[j] && nullCheckIndices[j] < $k)
+//@   loop 4 invariant complete: forall(i, 0, $k, Null.Is(expr.FunctionCall.Arguments[i].Type) == 2 ==> exists(j, 0, len(nullCheckIndices), nullCheckIndices[j] == i))
+//@   loop 4 invariant only: forall(j, 0, len(nullCheckIndices), Null.Is(expr.FunctionCall.Arguments[nullCheckIndices[j]].Type) == 2)
